@@ -438,3 +438,56 @@ def stale_read(progs):
                                '%s of `%s` is read after this exchange has already overwritten it: the other operand receives the new value instead of '
                                'the original one (swap without a temporary)' % (A.cshort(n), obj), where=f['pname'], unit=prog.uname))
     return rr
+
+
+# ------------------------------------------------------------------------------ EACH-OTHER
+class EachOtherClient(Client):
+    def __init__(self, linit):
+        self.linit = linit
+
+    def is_event(self, n):
+        return n.get('k') == 'call'
+
+    def assume(self, cond, truth, s):
+        c = A.strip(cond)
+        neg = False
+        while isinstance(c, dict) and c.get('k') == 'un' and c.get('op') == '!':
+            c = A.strip(c.get('sub'))
+            neg = not neg
+        if isinstance(c, dict) and c.get('k') == 'call' and A.cshort(c) == 'canSwapDynStorage':
+            return s | ({'canswap'} if (truth != neg) else {'noswap'})
+        return s
+
+    def event(self, n, s):
+        if A.cshort(n) == 'adjustCapacity' and n.get('args'):
+            kind, r = A.root(n.get('obj'), self.linit) if n.get('obj') is not None else ('this', {})
+            who = 'this' if kind == 'this' else 'other'
+            # the request must be the *other* operand's size
+            arg_sizes = [c for c in A.calls(n['args'][0]) if A.cshort(c) == 'size']
+            src = None
+            for c in arg_sizes:
+                k2, r2 = A.root(c.get('obj'), self.linit) if c.get('obj') is not None else ('this', {})
+                src = 'this' if k2 == 'this' else 'other'
+            if src is not None and src != who:
+                return [('n', s | {'adj:' + who})]
+        return [('n', s)]
+
+
+def each_other(progs):
+    rr = RuleResult('EACH-OTHER', 'before a swap2 that is not a pure buffer exchange, the capacity of each operand is checked / adjusted against the '
+                                  'size of the other one (both directions)')
+    for prog in progs:
+        for f in prog.amc_functions():
+            if short(f['name']) != 'adjustEachOtherCapacity' or f.get('body') is None:
+                continue
+            linit = A.local_inits(f['body'])
+            o = Engine(EachOtherClient(linit)).run(f['body'], frozenset(), f.get('inits'))
+            finals = list(o.normal) + [s for s, _ in o.returns]
+            bad = [s for s in finals if 'canswap' not in s and not ({'adj:this', 'adj:other'} <= s)]
+            rr.instance('%s|%s' % (f['key'], f['pname'][:160]), {'function': f['pname'][:200], 'paths': len(finals), 'paths_missing_a_direction': len(bad)})
+            if bad:
+                missing = sorted({'this' if 'adj:this' not in s else 'other' for s in bad})
+                rr.add(Finding('EACH-OTHER', '%s|%s' % (f['key'], ','.join(missing)), f['loc'],
+                               'there is a path on which the capacity of `%s` is not checked against the size of the other operand before the element-wise exchange'
+                               % '/'.join(missing), where=f['pname'], unit=prog.uname))
+    return rr
